@@ -1115,7 +1115,8 @@ Proof.
   - (* the client has gone: what was popped for it goes back *)
     destruct r; try contradiction; cbn [fst snd].
     + destruct (pop_push_back _ _ _ _ _ HAd Epop) as (B1 & B2).
-      split; [apply cinv_set_db_direct; assumption|]. left. split; [reflexivity|]. split; [reflexivity|].
+      split; [apply cinv_set_db_direct; assumption|]. left.
+      split; [exact (proj1 (proj2 (notify_key_ready_fields _ _ _)))|]. split; [exact (proj1 (notify_key_ready_fields _ _ _))|].
       eapply delta_same_counts; [reflexivity|]. intros k x. rewrite B2. reflexivity.
     + split; [apply cinv_set_db_direct; assumption|]. left. split; [reflexivity|]. split; [reflexivity|].
       eapply delta_same_counts; [reflexivity|]. intros k x. specialize (P3 k x). rewrite ecount_nil in P3. unfold get_db in P3. lia.
@@ -1145,7 +1146,7 @@ Proof.
   induction l as [|u l IH]; intros s b HA Hc CI HB; cbn [fold_left fst snd].
   - split; [exact Hc|]. split; [exact CI|]. split; [exact HB|]. exists []. split; [reflexivity|]. split; [apply delta_same; reflexivity|intros c f []].
   - rewrite wake_step_eq, Hc. cbn [app] in HA.
-    pose proof (agree_wake_client now s b u (l ++ b_wake b) HA) as Hnext. rewrite <- (wake_client_wake now s b u) in Hnext.
+    pose proof (agree_wake_next now s b u l HA) as Hnext.
     destruct (wake_client_cons now s b u (l ++ b_wake b) HA CI HB) as (W1 & W2 & W3).
     assert (Hnd : ~ In (u_conn u) (map u_conn l)).
     { destruct HA as (_ & _ & A3 & _). unfold wakes_unique in A3. cbn [with_wake b_wake map] in A3.
